@@ -342,6 +342,65 @@ Example C06_witness_admitted :
     (length (bucket (s_nodes unit X_S5) (slot_of X_cfg 9)) < K)%nat.
 Proof. eexists. eexists. split; [vm_compute; reflexivity|]. split; [reflexivity|vm_compute; repeat constructor]. Qed.
 
+(* ---- table maintenance (Server.TableMaintainer: model/Maint.v, proofs/MaintProofs.v) ----
+   The maintainer is the only other writer of routing-table state besides the packet path: it pings the
+   questionable entries of a bucket and marks the ones that do not answer (failedLastQuestionablePing: bad,
+   evictable).  For every table, every outcome of every ping, every behaviour of the bucket refreshes:
+   a good entry is never pinged as questionable, never marked, and is still in the table, unchanged, when
+   the pass is over - provided the refresh traversals (ordinary packet-path traffic, covered by
+   C06_good_kept above) do not remove good entries themselves. *)
+From Dht Require Import Maint MaintProofs RunServer RunMaint.
+
+Section C06_maintenance.
+  Variable id_secure : N -> bytes -> bool.
+  Variable cfg : config.
+  Variable now : Z.
+  Variable answers : node -> bool.
+  Variable refresh : nat -> list node -> list node.
+
+  Theorem C06_maint_pings_only_questionable nodes j tg n :
+    In (PPing j tg) (fst (pass id_secure cfg now answers refresh nodes)) -> In n tg ->
+    n_slot n = j /\ m_good id_secure cfg now n = false /\ m_bad id_secure cfg n = false.
+  Proof. exact (pass_from_pings_questionable id_secure cfg nbuckets 0 now answers refresh nodes j tg n). Qed.
+
+  Theorem C06_maint_flag_only_unanswered_questionable nodes i m :
+    In m (after_pings id_secure cfg now answers nodes i) -> n_failed m = true ->
+    In m nodes \/
+    exists n, In n nodes /\ n_slot n = i /\ m_quest id_secure cfg now n = true /\ answers n = false /\
+              m = apply_update now UFailedPing n.
+  Proof. exact (after_pings_flagged id_secure cfg now answers nodes i m). Qed.
+
+  Theorem C06_maint_answered_ping_makes_good n :
+    answers n = true -> m_quest id_secure cfg now n = true ->
+    m_good id_secure cfg now (settle_ping now answers n) = true.
+  Proof. exact (settle_answered_good id_secure cfg now answers n). Qed.
+
+  Theorem C06_maint_pass_keeps_good nodes n :
+    good_preserving id_secure cfg now refresh -> In n nodes -> m_good id_secure cfg now n = true ->
+    In n (snd (pass id_secure cfg now answers refresh nodes)).
+  Proof. exact (pass_from_good_kept id_secure cfg nbuckets 0 now answers refresh nodes n). Qed.
+End C06_maintenance.
+
+(* non-vacuity: a bucket with a good entry, a questionable one that answers and one that does not: two pings,
+   the silent one is marked, the bucket (3 of 8) is refreshed with the two not-bad entries as seeds, the pass ends
+   there; the good entry is still there *)
+Definition MX_cfg := rm_cfg 1 true.
+Definition MX_now : Z := 1000000000000000%Z.
+Definition MX_g := rm_node 1000 [Byte.x0a; Byte.x00; Byte.x00; Byte.x01] 6881 None (Some MX_now) false O.
+Definition MX_q1 := rm_node 1001 [Byte.x0a; Byte.x00; Byte.x00; Byte.x02] 6881 None None false O.
+Definition MX_q2 := rm_node 1002 [Byte.x0a; Byte.x00; Byte.x00; Byte.x03] 6881 None (Some 0%Z) false O.
+Example C06_maint_nonvacuous :
+  let r := rm_pass MX_cfg MX_now [(1001, addr_key (n_addr MX_q1))] [MX_g; MX_q1; MX_q2] in
+  map (fun p => fst (rm_phase_view p)) (fst r) = [0; 1; 2] /\
+  (exists tg, nth_error (fst r) O = Some (PPing O tg) /\ tg = [MX_q1; MX_q2]) /\
+  In MX_g (snd r) /\ map (rm_class MX_cfg MX_now) (snd r) = [0; 0; 2] /\
+  good_preserving id_secure_impl MX_cfg MX_now refresh_silent.
+Proof.
+  split; [vm_compute; reflexivity|]. split; [eexists; split; vm_compute; reflexivity|].
+  split; [vm_compute; left; reflexivity|]. split; [vm_compute; reflexivity|].
+  exact (refresh_silent_good_preserving id_secure_impl MX_cfg MX_now).
+Qed.
+
 (* ---- pins: constants the property depends on, as found in /repo now ---- *)
 Example C06_pin_k : table_k = 8%Z /\ table_k_ok = true.
 Proof. repeat split. Qed.
@@ -368,3 +427,8 @@ Print Assumptions C06_good_kept_reachable.
 Print Assumptions C06_displaced_only_reachable.
 Print Assumptions C06_timestamps_reachable.
 Print Assumptions C06_witness_inv.
+Print Assumptions C06_maint_pings_only_questionable.
+Print Assumptions C06_maint_flag_only_unanswered_questionable.
+Print Assumptions C06_maint_answered_ping_makes_good.
+Print Assumptions C06_maint_pass_keeps_good.
+Print Assumptions C06_maint_nonvacuous.
